@@ -1,7 +1,8 @@
 (* C08 — the JSON document mirrors the accessor view of the error.
    Statements only; proofs in Proofs/C08Proofs.v. *)
+From Errdef Require Gen.Consts.
 From Errdef Require Import Base.Str Base.Outcome Model.Core Model.GoErrors Model.Prog Model.Tree0 Model.Json
-  Check.Render Check.C08 Proofs.C08Proofs.
+  Check.Render Check.C08 Proofs.C08Proofs Proofs.JsonTags.
 
 (* For every cause tree (any shape, any depth, native and restored nodes, foreign nodes),
    the document produced along the code path (MarshalErrorJSON -> jsonErrorData ->
@@ -39,6 +40,23 @@ Theorem C08_custom_marshaler_local : forall e id kids,
   marshal_tree (T e kids) = Ok (custom_json id (err_msg e)).
 Proof. exact custom_marshaler_local. Qed.
 Print Assumptions C08_custom_marshaler_local.
+
+(* TIE TO THE SOURCE: the member names of the modelled documents are the JSON names of the struct
+   tags of jsonErrorData / jsonCauseData / Frame as srcgen reads them from /repo on every run
+   (Gen/Consts.v), in declaration order; every member whose tag carries no omitempty is always
+   present.  Renaming a tag, reordering the struct, or adding / dropping an omit flag on an always-
+   present member breaks this theorem (and the correspondence shows the differing document). *)
+Theorem C08_members_follow_struct_tags :
+  (forall e kids doc, is_errdef_error e = true -> (match e_def e with Some d => d_json d | None => None end) = None ->
+     marshal_tree (T e kids) = Ok doc ->
+     subseqb (members doc) (tag_names Gen.Consts.jsonErrorData_tags) = true /\
+     forallb (fun n => existsb (str_eqb n) (members doc)) (required Gen.Consts.jsonErrorData_tags) = true) /\
+  (forall e kids doc, is_errdef_error e = false -> marshal_tree (T e kids) = Ok doc ->
+     subseqb (members doc) (tag_names Gen.Consts.jsonCauseData_tags) = true /\
+     forallb (fun n => existsb (str_eqb n) (members doc)) (required Gen.Consts.jsonCauseData_tags) = true) /\
+  (forall f, members (frame_json f) = tag_names Gen.Consts.Frame_tags).
+Proof. exact (conj errdef_members_follow_tags (conj foreign_members_follow_tags frame_members_are_tags)). Qed.
+Print Assumptions C08_members_follow_struct_tags.
 
 (* the model is a function: the document does not depend on map iteration order or on
    anything but the error value (byte-for-byte determinism is observed, not proved) *)
